@@ -125,11 +125,28 @@ LIFTFN = {1: l_wrap, 2: l_const, 3: l_no_b, 4: l_rev}
 # ---- concretisation of a term ---------------------------------------------
 
 def build(t, how):
-    """A fresh parser object for term t.  how = 'classes': constructors only; 'operators': through
-    + | << >> & / * .map .until wherever an operator exists; 'forward': every composite node behind a
-    Forward declaration."""
+    """Parser objects for term t, fresh per term.  how = 'classes': constructors only; 'operators':
+    through + | << >> & / * .map .until wherever an operator exists; 'forward': every composite node
+    behind a Forward declaration; 'shared': constructors, and equal sub-terms are ONE object used at
+    every occurrence (the way grammars are written: `a = Char("a"); a + b + a`); 'shared-ops': the
+    operators, with equal leaves being one object (composites stay fresh: + and | extend in place)."""
+    memo = {} if how in ("shared", "shared-ops") else None
+    return _build(t, "operators" if how == "shared-ops" else "classes" if how == "shared" else how, memo,
+                  how == "shared-ops")
+
+
+def _build(t, how, memo, leaves_only):
+    if memo is not None and (not leaves_only or not t["ts"]):
+        mk = json.dumps(t, sort_keys=True)
+        if mk not in memo:
+            memo[mk] = _build1(t, how, memo, leaves_only)
+        return memo[mk]
+    return _build1(t, how, memo, leaves_only)
+
+
+def _build1(t, how, memo, leaves_only):
     k = t["k"]
-    kids = [build(c, how) for c in t["ts"]]
+    kids = [_build(c, how, memo, leaves_only) for c in t["ts"]]
     ops = how == "operators"
     if k == "char":
         p = Char(t["s"][0])
@@ -303,7 +320,7 @@ def tag(job):
             vals = []
             for s in sets:
                 # the documentation promises "a list or set of strings"
-                arg = list(s) if (len(vals) + len(text)) % 2 else set(s)
+                arg = [list(s), set(s), list(reversed(s)), tuple(s)][(len(vals) + len(text)) % 4]
                 try:
                     r = pred(arg)
                 except Exception:
